@@ -35,6 +35,9 @@ pub enum Op {
     Advance(u32),
     /// one reload that drops two links at once
     RemoveTwo { a: u16, b: u16 },
+    /// every later send on this link's socket fails (EPIPE): the next flush that has something to send tears the
+    /// link down (mark_for_recovery) and its queue and in-flight packets go with it
+    Break { link: u16 },
 }
 
 #[derive(Debug, Clone, Hash, Serialize, Deserialize)]
@@ -99,6 +102,7 @@ pub fn strategy(which: Which, max_ops: usize) -> impl Strategy<Value = Case> {
             .prop_map(|(arrival, items, direct)| Op::Nak { arrival, items, direct }),
         1 => (any::<u16>(), 0u8..4).prop_map(|(link, kind)| Op::Reset { link, kind }),
         3 => time_step(which).prop_map(Op::Advance),
+        1 => any::<u16>().prop_map(|link| Op::Break { link }),
     ];
     // link removal (reload) only in the C05 histories; proptest unions reject zero weights
     let op = if which == Which::C05 {
@@ -240,6 +244,7 @@ pub fn check(case: &Case, obs: &mut Obs, which: Which) -> CheckResult {
     let mut removed_links: BTreeSet<u64> = BTreeSet::new();
     let mut reset_links: BTreeMap<u64, usize> = BTreeMap::new();
     let mut late_sent: BTreeSet<u32> = BTreeSet::new();
+    let mut broken: BTreeSet<u64> = BTreeSet::new();
 
     let mut expanded: Vec<Op> = Vec::new();
     for op in &case.ops {
@@ -282,6 +287,16 @@ pub fn check(case: &Case, obs: &mut Obs, which: Which) -> CheckResult {
                         sh.flush_tick();
                         for c in sh.st.conns.iter() {
                             let m = model.get_mut(&c.conn_id).unwrap();
+                            if broken.contains(&c.conn_id) {
+                                if !m.queued.is_empty() {
+                                    // the flush failed: the link was torn down with everything it held
+                                    m.queued.clear();
+                                    m.held.clear();
+                                    reset_links.insert(c.conn_id, oi);
+                                    obs.class("flush-failed-link-torn-down");
+                                }
+                                continue;
+                            }
                             if c.batch_sender.queued_count() == 0 {
                                 for s in m.queued.drain(..) {
                                     if high_ack.is_some_and(|a| s <= a) {
@@ -316,13 +331,20 @@ pub fn check(case: &Case, obs: &mut Obs, which: Which) -> CheckResult {
                     let q_after = sh.st.conns[li].batch_sender.queued_count();
                     if q_after == 0 && q_before + 1 > 0 {
                         // threshold flush happened inside forward_via_connection
-                        for s in m.queued.drain(..) {
-                            if high_ack.is_some_and(|a| s <= a) {
-                                late_sent.insert(s);
+                        if broken.contains(&cid) {
+                            m.queued.clear();
+                            m.held.clear();
+                            reset_links.insert(cid, oi);
+                            obs.class("flush-failed-link-torn-down");
+                        } else {
+                            for s in m.queued.drain(..) {
+                                if high_ack.is_some_and(|a| s <= a) {
+                                    late_sent.insert(s);
+                                }
+                                m.held.insert(s);
                             }
-                            m.held.insert(s);
+                            obs.class("threshold-flush");
                         }
-                        obs.class("threshold-flush");
                     }
                 }
             }
@@ -330,6 +352,15 @@ pub fn check(case: &Case, obs: &mut Obs, which: Which) -> CheckResult {
                 sh.flush_tick();
                 for c in sh.st.conns.iter() {
                     let m = model.get_mut(&c.conn_id).unwrap();
+                    if broken.contains(&c.conn_id) {
+                        if !m.queued.is_empty() {
+                            m.queued.clear();
+                            m.held.clear();
+                            reset_links.insert(c.conn_id, oi);
+                            obs.class("flush-failed-link-torn-down");
+                        }
+                        continue;
+                    }
                     for s in m.queued.drain(..) {
                         if high_ack.is_some_and(|a| s <= a) {
                             obs.class("late-send-below-ack-hwm");
@@ -526,6 +557,15 @@ pub fn check(case: &Case, obs: &mut Obs, which: Which) -> CheckResult {
                 m.held.clear();
                 m.queued.clear();
                 reset_links.insert(cid, oi);
+            }
+            Op::Break { link } => {
+                if nl == 0 {
+                    continue;
+                }
+                let li = idx(*link, nl);
+                if sh.break_socket(li) {
+                    broken.insert(sh.st.conns[li].conn_id);
+                }
             }
             Op::Remove { .. } | Op::RemoveTwo { .. } => {
                 let drop_idx: Vec<usize> = match op {
